@@ -214,8 +214,12 @@ impl FmtAttribute {
         fields: &syn::Fields,
     ) -> Option<(Expr, syn::Ident)> {
         self.transparent_call().map(|(expr, trait_ident)| {
+            // Only a field named in the placeholder itself stands for the field. Inside the
+            // arguments a field's name is a reference to it, like for any other expression
+            // (matters for `fmt::Pointer`).
             let expr = if let Some(field) = fields
                 .fmt_args_idents()
+                .filter(|_| self.args.is_empty())
                 .find(|field| expr == *field || expr == field.unraw())
             {
                 field.into()
